@@ -137,8 +137,14 @@ def truth(cond, st):
         return truth(cond[1], st) or truth(cond[2], st)
     if k == "const":
         return cond[1]
+    if k == "uneval":
+        return False        # an assertion that cannot be evaluated fails the test
     raise ValueError(k)
 
+
+# assertion expressions that assemble but cannot be evaluated when they are reached
+UNEVALUABLE = ["nosuchfn_zz(1) == 0", "ram($2000, 2) == 0", '"a" < "b"', "nosuch_zz == 1", "ram() == 0", "ram16($80, 1) == 0", "cpu.nosuch_zz == 1",
+               "ram($80) == nosuch_zz", "cpu.a == 1 || nosuchfn_zz(2)"]
 
 FLAGNAMES = {"z": "zero", "c": "carry", "n": "negative", "v": "overflow"}
 
@@ -159,6 +165,8 @@ def render_cond(cond):
         return "(%s) || (%s)" % (render_cond(cond[1]), render_cond(cond[2]))
     if k == "const":
         return "1 == 1" if cond[1] else "1 == 2"
+    if k == "uneval":
+        return cond[1]
     raise ValueError(k)
 
 
@@ -204,6 +212,9 @@ def choose_conditions(rng, visits, nslots, p_false=0.4):
                 c = rng.choice([("and", c, ("const", True)), ("or", c, ("const", False)), ("or", ("const", False), c)])
             conds[s] = c
         else:
+            if rng.random() < 0.12:
+                conds[s] = ("uneval", rng.choice(UNEVALUABLE))   # fails on the first visit
+                continue
             k = rng.randrange(len(vs))                          # first visit on which it shall be false
             for _ in range(20):
                 c = atom(rng, vs[k], False)
